@@ -7,23 +7,21 @@ From PV Require Import History Solver SolverProofs Interp Inputs InputsProofs.
 Import ListNotations.
 Local Open Scope nat_scope.
 
-(* The full-strength statement: for every network of integrators, solver, hierarchy depth and every list of inputs
-   in an accepted form, run() returns the trajectory driven by spec_u.  FALSE of the faithful model because of the
-   loud class D30 (C08_refuted_depth2); with the depth guard added it is C08_run_partial, proved below for whole
-   runs of any length. *)
-Definition C08_full_statement : Prop :=
-  forall s vectorize depth T dt udef W inputs x0,
-    forallb (input_ok vectorize (rnd (T / dt))) inputs = true -> rows_fit T dt dt = true -> frame_ok T dt = true ->
-    run_inputs s vectorize depth T dt udef W inputs x0 = Rows (spec_run_inputs s T dt udef W inputs x0).
-
-(* -------- whole runs -------- *)
-(* guards: inputs_guard = depth_ok (depth < 2 or no inputs) + every input in an accepted form, long enough, target
-   list without repetition; rows_fit / frame_ok are C03's guards (here dts = dt) *)
-Theorem C08_run_partial : forall s vectorize depth T dt udef W inputs x0,
-  inputs_guard vectorize depth T dt inputs = true -> rows_fit T dt dt = true -> frame_ok T dt = true ->
+(* Headline (full strength since fix D89 removed the loud class D30): for every network of integrators with weighted
+   edges, both fixed-step solvers, EVERY hierarchy depth, any declared default of the input variable and every list of
+   inputs in a form the property speaks about (1-D, (N,1), or (N,n) with n = #targets under vectorization; arrays at
+   least as long as the number of steps; target lists without repetition), run() returns the trajectory driven by
+   spec_u, for any number of steps.  rows_fit / frame_ok are C03's conditions on (T, dt) (here dts = dt). *)
+Theorem C08_full : forall s vectorize depth T dt udef W inputs x0,
+  forallb (input_ok vectorize (rnd (T / dt))) inputs = true -> rows_fit T dt dt = true -> frame_ok T dt = true ->
   run_inputs s vectorize depth T dt udef W inputs x0 = Rows (spec_run_inputs s T dt udef W inputs x0).
-Proof. exact run_inputs_partial. Qed.
-Print Assumptions C08_run_partial.
+Proof. exact run_inputs_full. Qed.
+Print Assumptions C08_full.
+
+Theorem C08_depth_irrelevant : forall s vectorize depth T dt udef W inputs x0,
+  run_inputs s vectorize depth T dt udef W inputs x0 = run_inputs s vectorize 0 T dt udef W inputs x0.
+Proof. exact run_inputs_depth_irrelevant. Qed.
+Print Assumptions C08_depth_irrelevant.
 
 (* its pointwise core: every accepted input, every unit, every step below the number of steps *)
 Theorem C08_delivered_spec : forall vectorize steps inp i k, input_ok vectorize steps inp = true -> k < steps ->
@@ -139,27 +137,20 @@ Theorem C08_interp_at_sample : forall xa ya xb yb, lin xa ya xb yb xa = ya.
 Proof. exact lin_at_left. Qed.
 Print Assumptions C08_interp_at_sample.
 
-(* -------- the loud class D30 -------- *)
-Theorem C08_depth2_raises : forall s vectorize depth T dt udef W inputs x0, 2 <= depth -> inputs <> [] ->
-  run_inputs s vectorize depth T dt udef W inputs x0 = ErrAttribute.
-Proof. exact run_inputs_depth2. Qed.
-Print Assumptions C08_depth2_raises.
-
-Theorem C08_refuted_depth2 :
-  run_inputs Euler true 2 (mkq 1 1) (mkq 1 4) (mkq 0 1) [[mkq 0 1]] [(A1 [mkq 1 1; mkq 2 1; mkq 4 1; mkq 8 1], [0])] [mkq 1 2] = ErrAttribute /\
-  depth_ok 2 [(A1 [mkq 1 1; mkq 2 1; mkq 4 1; mkq 8 1], [0])] = false /\
-  outcome_eqb (Rows (spec_run_inputs Euler (mkq 1 1) (mkq 1 4) (mkq 0 1) [[mkq 0 1]] [(A1 [mkq 1 1; mkq 2 1; mkq 4 1; mkq 8 1], [0])] [mkq 1 2]))
+(* -------- regression of fix D89 (was C08_refuted_depth2: AttributeError at hierarchy depth >= 2) -------- *)
+Theorem C08_depth2_after_D89 :
+  outcome_eqb (run_inputs Euler true 2 (mkq 1 1) (mkq 1 4) (mkq 0 1) [[mkq 0 1]] [(A1 [mkq 1 1; mkq 2 1; mkq 4 1; mkq 8 1], [0])] [mkq 1 2])
               (Rows [[mkq 0 1; mkq 1 2]; [mkq 1 4; mkq 3 4]; [mkq 1 2; mkq 5 4]; [mkq 3 4; mkq 9 4]]) = true.
-Proof. exact refuted_depth2. Qed.
-Print Assumptions C08_refuted_depth2.
+Proof. exact depth2_after_D89. Qed.
+Print Assumptions C08_depth2_after_D89.
 
 (* non-vacuity: two units, a (4,2) array to both (columns), a 1-D array to unit 1 on top, an edge 0 -> 1; all guards hold
    and model and specification agree on the whole trajectory *)
 Example C08_nonvacuous :
   let inputs := [(A2 [[mkq 1 1; mkq 10 1]; [mkq 2 1; mkq 20 1]; [mkq 4 1; mkq 40 1]; [mkq 8 1; mkq 80 1]], [0; 1]);
                  (A1 [mkq 1 1; mkq (-1) 1; mkq 3 1; mkq 5 1], [1])] in
-  inputs_guard true 1 (mkq 1 1) (mkq 1 4) inputs = true /\
-  outcome_eqb (run_inputs Heun true 1 (mkq 1 1) (mkq 1 4) (mkq 0 1) [[mkq 0 1; mkq 0 1]; [mkq 2 1; mkq 0 1]] inputs [mkq 1 2; mkq 1 1])
+  inputs_guard true (mkq 1 1) (mkq 1 4) inputs = true /\
+  outcome_eqb (run_inputs Heun true 3 (mkq 1 1) (mkq 1 4) (mkq 0 1) [[mkq 0 1; mkq 0 1]; [mkq 2 1; mkq 0 1]] inputs [mkq 1 2; mkq 1 1])
               (Rows (spec_run_inputs Heun (mkq 1 1) (mkq 1 4) (mkq 0 1) [[mkq 0 1; mkq 0 1]; [mkq 2 1; mkq 0 1]] inputs [mkq 1 2; mkq 1 1])) = true /\
   row_eqb (nth 1 (spec_run_inputs Heun (mkq 1 1) (mkq 1 4) (mkq 0 1) [[mkq 0 1; mkq 0 1]; [mkq 2 1; mkq 0 1]] inputs [mkq 1 2; mkq 1 1]) [])
           [mkq 1 4; mkq 3 4; mkq 65 16] = true.
